@@ -3,3 +3,4 @@ import Proofs.Props.Tables
 import Proofs.Props.C12
 import Proofs.Props.C19
 import Proofs.Props.C14
+import Proofs.Props.C18
